@@ -266,7 +266,9 @@ func (r *Runtime) object_seal(call FunctionCall) Value {
 		}
 
 		for item, next := obj.self.iterateKeys()(); next != nil; item, next = next() {
-			if prop, ok := item.value.(*valueProperty); ok {
+			// the in-place shortcut is only valid when the iterator returned the stored property itself
+			// (exotic objects such as mapped arguments return a copy)
+			if prop, ok := item.value.(*valueProperty); ok && obj.getOwnProp(item.name) == Value(prop) {
 				prop.configurable = false
 			} else {
 				obj.defineOwnProperty(item.name, descr, true)
@@ -284,7 +286,7 @@ func (r *Runtime) object_freeze(call FunctionCall) Value {
 		obj.self.preventExtensions(true)
 
 		for item, next := obj.self.iterateKeys()(); next != nil; item, next = next() {
-			if prop, ok := item.value.(*valueProperty); ok {
+			if prop, ok := item.value.(*valueProperty); ok && obj.getOwnProp(item.name) == Value(prop) {
 				prop.configurable = false
 				if !prop.accessor {
 					prop.writable = false
